@@ -29,7 +29,7 @@ LEVEL_NOTE = 'Trusts the storage iterator for the list of committed records (C04
 ASSUMPTIONS = ['quiescent point = no transaction in progress, no open blob file, gc.collect() done']
 REQUIRED_COUNTERS = ('quiescent_checks', 'blob_files_compared', 'second_connection_blob_reads', 'failed_commits', 'undos', 'packs', 'committed_file_stability_checks')
 
-OPS = (['new'] * 4 + ['rewrite'] * 3 + ['append'] * 2 + ['edit', 'consume', 'plain'] + ['savepoint'] * 2 + ['rollback'] * 2 + ['commit'] * 5 +
+OPS = (['new'] * 4 + ['rewrite'] * 3 + ['append'] * 2 + ['edit', 'consume', 'plain', 'minimize', 'relink'] + ['savepoint'] * 2 + ['rollback'] * 2 + ['commit'] * 5 +
        ['abort'] * 2 + ['fail-conflict', 'fail-foreign', 'fail-foreign', 'fail-io'] + ['undo'] * 3 + ['undo2'] * 2 + ['pack'])
 
 
@@ -241,6 +241,55 @@ def run_case(sh, s, d, case):
                 names.remove(name) if name in names else None
         pending.clear()
         del sp_stack[:]
+    held = {}
+    unadded = []
+    extra_pack_tids = []
+    garbage_windows = []
+    hrnd = random.Random(s + 77)
+
+    def readd():
+        """A Blob object the program kept, un-added by a rollback or an abort, is attached again in a transaction of its own:
+        the commit is either refused or stores a blob that every connection can read - never a reference to nothing."""
+        from ZODB.interfaces import BlobError
+        obj = held.pop(unadded.pop(0))
+        del unadded[:]
+        if obj._p_jar is not None or obj._p_oid is not None:
+            sh.violation('c13:%s:un-added-blob-still-owned' % kind, {'trace': trace[-20:]}, case)
+            return False
+        uid[0] += 1
+        nm = 'b%d' % uid[0]
+        tm.begin()
+        c.root()[nm] = obj
+        sh.count('un_added_blob_objects_attached_again')
+        try:
+            tm.commit()
+        except (BlobError, POSKeyError) as e:
+            tm.abort()
+            sh.count('re_attached_blob_refused_by_the_commit')
+            trace.append('readd:refused-%s' % type(e).__name__)
+            return quiescent('after-refused-readd') and second_connection('after-refused-readd')
+        trace.append('readd:committed')
+        try:
+            with c.root()[nm].open('r') as f:
+                got = f.read()
+            c2 = db.open(transaction.TransactionManager())
+            try:
+                with c2.root()[nm].open('r') as f:
+                    got2 = f.read()
+            finally:
+                c2.close()
+        except POSKeyError as e:
+            sh.violation('c13:%s:commit-stored-a-reference-to-a-re-attached-blob-without-storing-the-blob' % kind,
+                         {'exc': repr(e)[:120], 'trace': trace[-20:]}, case)
+            return False
+        if got != got2:
+            sh.violation('c13:%s:re-attached-blob-reads-differently-in-another-connection' % kind, {'trace': trace[-20:]}, case)
+            return False
+        names.append(nm)
+        committed[nm] = got
+        oid_of[nm] = c.root()[nm]._p_oid
+        content_at[(oid_of[nm], st.lastTransaction())] = got
+        return quiescent('after-readd') and second_connection('after-readd')
     LOG.enabled = True
     nops = rnd.choice([10, 20, 35])
     try:
@@ -255,6 +304,8 @@ def run_case(sh, s, d, case):
                 with b.open('w') as f:
                     f.write(data)
                 c.root()[name] = b
+                if hrnd.random() < 0.3:
+                    held[name] = b              # the program keeps the Blob object (most programs do not)
                 del b
                 names.append(name)
                 pending[name] = data
@@ -293,6 +344,12 @@ def run_case(sh, s, d, case):
             elif k == 'plain':
                 c.root()['other'].tok = 'v%d' % i
                 trace.append('plain')
+            elif k == 'minimize':
+                # unmodified objects become ghosts and, unreferenced then, leave the cache (blobs stored by a savepoint included)
+                c.cacheMinimize()
+                gc.collect()
+                sh.count('cache_minimized_in_mid_transaction')
+                trace.append('minimize')
             elif k == 'savepoint':
                 sp = tm.savepoint()
                 prevp = sp_stack[-1][1] if sp_stack else {}
@@ -311,6 +368,7 @@ def run_case(sh, s, d, case):
                 del sp_stack[j + 1:]
                 pending.clear()
                 pending.update(pend)
+                unadded.extend(n for n in names if n not in nms and n in held)
                 names[:] = nms
                 trace.append('rollback#%d' % j)
                 # every live blob must read the bytes it had at the savepoint again (pending ones: the savepoint bytes,
@@ -335,11 +393,14 @@ def run_case(sh, s, d, case):
                 if not quiescent('after-commit') or not second_connection('after-commit'):
                     return None
             elif k == 'abort':
+                unadded.extend(n for n in pending if n not in committed and n in held)
                 tm.abort()
                 after_abort()
                 trace.append('abort')
                 feats.add('abort' if True else '')
                 if not quiescent('after-abort') or not second_connection('after-abort'):
+                    return None
+                if unadded and not readd():
                     return None
             elif k.startswith('fail-'):
                 if not pending:
@@ -439,7 +500,11 @@ def run_case(sh, s, d, case):
                 # it; that is only possible when the undone revision is the blob's newest one not yet undone, or when the newer
                 # ones hold the same bytes - otherwise the undo had to be refused (the records of all revisions of a blob are
                 # alike, the bytes are in the files)
-                for name, oid in list(oid_of.items()):
+                by_oid = {}
+                for name, oid in oid_of.items():
+                    by_oid.setdefault(oid, []).append(name)     # (a blob attached again under a new key has had two names)
+                for oid, its_names in sorted(by_oid.items()):
+                    name = its_names[-1]
                     revs = sorted(t for (o, t) in content_at if o == oid)
                     cur = revs[-1] if revs else None
                     touched = False
@@ -457,11 +522,16 @@ def run_case(sh, s, d, case):
                         if cur is None:
                             break
                     if touched:
-                        committed[name] = content_at[(oid, cur)] if cur is not None else None
-                        content_at[(oid, tid)] = committed[name]          # (None = un-creation marker)
+                        val = content_at[(oid, cur)] if cur is not None else None
+                        content_at[(oid, tid)] = val          # (None = un-creation marker)
+                        for nm_ in its_names:
+                            if len(its_names) == 1 or committed.get(nm_) is not None:
+                                committed[nm_] = val
                 # blobs re-created by undoing an undo of their creation
                 tm.begin()
                 for name in list(oid_of):
+                    if name not in c.root() and len(by_oid[oid_of[name]]) > 1:
+                        committed[name] = None        # the undone transaction had attached the blob under this key
                     if committed.get(name) is None and name in c.root():
                         with c.root()[name].open('r') as f:
                             committed[name] = f.read()
@@ -477,10 +547,47 @@ def run_case(sh, s, d, case):
                 trace.append(k)
                 if not quiescent('after-undo') or not second_connection('after-undo'):
                     return None
+            elif k == 'relink' and not pending and kind == 'file' and [n for n in names if committed.get(n) is not None]:
+                # a blob becomes garbage (its only reference is removed and that committed) while the program keeps the Blob
+                # object; later the program writes to it and attaches it again.  A pack to a time in between removes the
+                # revisions from before (the object was garbage then) and must keep the file of the revision written afterwards.
+                tm.abort()
+                del sp_stack[:]
+                name = rnd.choice(sorted(n for n in names if committed.get(n) is not None))
+                tm.begin()
+                bobj = c.root()[name]
+                del c.root()[name]
+                tm.commit()
+                U = st.lastTransaction()
+                committed[name] = None
+                names.remove(name)
+                trace.append('unlink(%s)' % name)
+                if not quiescent('after-unlink') or not second_connection('after-unlink'):
+                    return None
+                uid[0] += 1
+                nm = 'b%d' % uid[0]
+                data = newbytes()
+                tm.begin()
+                with bobj.open('w') as f:
+                    f.write(data)
+                c.root()[nm] = bobj
+                del bobj
+                pending[nm] = data
+                names.append(nm)
+                tm.commit()
+                after_commit()
+                trace.append('relink-rewritten(%s as %s)' % (name, nm))
+                sh.count('garbage_blobs_written_and_attached_again')
+                extra_pack_tids.append(U)
+                garbage_windows.append((oid_of[nm], U, st.lastTransaction()))
+                if not quiescent('after-relink') or not second_connection('after-relink'):
+                    return None
             elif k == 'pack' and not pending:
                 tm.abort()
                 del sp_stack[:]
-                tids = sorted({t for (o, t) in content_at})
+                tids = sorted({t for (o, t) in content_at} | set(extra_pack_tids))
+                if extra_pack_tids and rnd.random() < 0.5:
+                    tids = [extra_pack_tids[-1]]
                 if not tids:
                     continue
                 T = rnd.choice(tids)
@@ -498,6 +605,11 @@ def run_case(sh, s, d, case):
                     return None
                 sh.count('packs')
                 trace.append('pack')
+                for (goid, gu, gr) in garbage_windows:
+                    if gu <= T < gr:
+                        # the blob was garbage at the pack time: its revisions from before are gone, records and files
+                        for key in [k_ for k_ in content_at if k_[0] == goid and k_[1] <= T]:
+                            del content_at[key]
                 packed_T[0] = max(packed_T[0] or T, T)
                 if set(blob_files(blob_dir)) != before:
                     feats.add('pack-removed')
@@ -542,6 +654,76 @@ def crafted(sh, d, case):
     st = (FSM.FileStorage(os.path.join(d, 'Data.fs'), blob_dir=blob_dir) if kind == 'file'
           else ZODB.blob.BlobStorage(blob_dir, FSM.FileStorage(os.path.join(d, 'Data.fs'))) if kind == 'blobwrap-file'
           else ZODB.blob.BlobStorage(blob_dir, ZODB.MappingStorage.MappingStorage()))
+    if case['crafted'] in ('pack-after-multiple-undo-leaving-the-blob-uncreated', 'pack-after-garbage-blob-written-and-attached-again'):
+        # two regression scenarios for the packer's choice of blob files to remove (FileStorage with a blob directory):
+        #  - a multiple undo re-creates a blob and un-creates it again within one transaction: the file copied for the transient
+        #    revision belongs to a record the pack removes, so the pack removes it too;
+        #  - a blob is unlinked (garbage at the pack time), then written and attached again by the program that kept the object: the
+        #    pack removes the revisions from before the pack time, not the directory with the file of the later revision
+        import glob
+        db = ZODB.DB(st)
+        tm = transaction.TransactionManager()
+        c = db.open(tm)
+
+        def files():
+            return sorted(os.path.basename(p) for p in glob.glob(os.path.join(blob_dir, '0x*', '*', '*', '*', '*', '*', '*', '*', '*.blob')))
+
+        def blob_revisions():
+            out = []
+            it = st.iterator()
+            for tx in it:
+                for r in tx:
+                    if r.data is not None and objs.decode_record(r.data)[0] is Blob:
+                        out.append('0x' + tx.tid.hex() + '.blob')
+            it.close()
+            return sorted(out)
+        tm.begin()
+        c.root()['b'] = b = Blob(b'one')
+        tm.commit()
+        if case['crafted'].startswith('pack-after-multiple'):
+            del b
+            ids = [x['id'] for x in db.undoInfo(0, 1)]
+            db.undo(ids[0], tm.get())
+            tm.commit()                                          # the creation is undone
+            ids = [x['id'] for x in db.undoInfo(0, 2)]
+            db.undoMultiple(ids, tm.get())
+            tm.commit()                                          # re-created and un-created again in one transaction
+            db.undo(db.undoInfo(0, 1)[0]['id'], tm.get())
+            tm.commit()
+            T = st.lastTransaction()
+            db.undo(db.undoInfo(0, 1)[0]['id'], tm.get())        # after the pack time: its records point back into that transaction
+            tm.commit()
+            want = None
+        else:
+            tm.begin()
+            del c.root()['b']
+            tm.commit()
+            T = st.lastTransaction()
+            with b.open('w') as f:
+                f.write(b'two')
+            c.root()['b'] = b
+            tm.commit()
+            want = b'two'
+        tm.begin()
+        c.root()['x'] = 1
+        tm.commit()
+        db.pack(TimeStamp(T).timeTime() + 0.0005)
+        sh.count('crafted_blob_pack_scenarios')
+        if files() != blob_revisions():
+            sh.violation('c13:file:pack:blob-files-differ-from-the-blob-revisions-kept:%s' % case['crafted'],
+                         {'files': files(), 'revisions': blob_revisions()}, case)
+        elif want is not None:
+            c2 = db.open(transaction.TransactionManager())
+            try:
+                with c2.root()['b'].open('r') as f:
+                    if f.read() != want:
+                        sh.violation('c13:file:pack:kept-blob-reads-other-bytes', {}, case)
+            except POSKeyError as e:
+                sh.violation('c13:file:pack:kept-blob-unreadable', {'exc': repr(e)[:100]}, case)
+            c2.close()
+        c.close()
+        db.close()
+        return
     if case['crafted'] == 'undo-of-overwritten-blob-change':
         # regression scenario for fix fd9c662, also on the blob wrapper over a FileStorage without blob directory of its own (that
         # configuration is outside the statement's quantifier and not part of the generated histories): T1 A, T2 B, T3 C; undoing T2
@@ -656,6 +838,10 @@ def run_shard(params):
         guarded(sh, 'c13', ccase, lambda: crafted(sh, sh.fresh_dir('c13'), ccase))
     elif params.get('shard', 0) < 4:
         ccase = {'crafted': 'undo-of-overwritten-blob-change', 'kind': ('file', 'blobwrap-file')[params.get('shard', 0) - 2]}
+        guarded(sh, 'c13', ccase, lambda: crafted(sh, sh.fresh_dir('c13'), ccase))
+    elif params.get('shard', 0) < 6:
+        ccase = {'crafted': ('pack-after-multiple-undo-leaving-the-blob-uncreated', 'pack-after-garbage-blob-written-and-attached-again')[params.get('shard', 0) - 4],
+                 'kind': 'file'}
         guarded(sh, 'c13', ccase, lambda: crafted(sh, sh.fresh_dir('c13'), ccase))
     for i in case_indices(params):
         if not sh.time_left():
